@@ -698,6 +698,13 @@ ovni_thread_free(void)
 	if (rthread.cpus)
 		set_thread_cpus(meta);
 
+	/* Storage that writes behind (NFS, quotas) reports a failed write
+	 * only here, so close before the stream is marked finished. After
+	 * EINTR the descriptor is gone and must not be closed again. */
+	if (close(rthread.streamfd) != 0 && errno != EINTR)
+		die("close of the thread stream failed:");
+	rthread.streamfd = -1;
+
 	/* Mark it finished so we can detect partial streams */
 	if (json_object_dotset_number(meta, "ovni.finished", 1) != 0)
 		die("json_object_dotset_string failed");
@@ -706,9 +713,6 @@ ovni_thread_free(void)
 
 	free(rthread.evbuf);
 	rthread.evbuf = NULL;
-
-	close(rthread.streamfd);
-	rthread.streamfd = -1;
 
 	if (rproc.move_to_final) {
 		/* The dir rthread.thdir_final must exist in the FS */
